@@ -74,8 +74,10 @@ TEXT = {
             "Coq proof (canonicity, all types) + correspondence", "5 (C10)"),
     "C11": ("Theorems: the implementation model's is_fixed / min / max / type_byte_length equal the specification's for "
             "every type (induction on ty); every well-formed value's spec encoding length lies in [min_len, max_len] and "
-            "equals fsize for fixed types (full nesting). value_byte_length tied by correspondence + model-free oracle.",
-            "Coq proof by induction on ty (lia) + correspondence", "5 (C11)"),
+            "equals fsize for fixed types (full nesting); C11_value_len: for every constructed value of every type the reported "
+            "byte count equals the length of the actual encoding (= the spec encoding), lies within the bounds and is the "
+            "fixed size for fixed-size types. Mutated values / Python glue: correspondence + model-free oracle.",
+            "Coq proof by induction on ty (lia) + C02 theorem + correspondence", "5 (C11)"),
     "C12": ("Theorems: default_node(t) succeeds for every well-formed type and its root is Spec.htr t (zero_val t) "
             "(induction on ty through fill_to_length / fill_to_contents and the CRep invariant); zero_val is well-formed; "
             "default root = root of the explicitly constructed zero value. Navigability and default encoding by "
